@@ -43,6 +43,7 @@ def feed(report, reps, kinds, need_spec=False):
             oid = '%s:%s' % (r['file'], o['site'])
             meta = {'cfile': r['file'], 'module': r['file'][:-2],
                     'fn': r['function'], 'line': o['line'],
+                    'line_end': (o.get('extra') or {}).get('line_end'),
                     'params': post.get('params') or r.get('params'), 'mats': post.get('mats',
                                                                   []),
                     'outputs': post.get('outputs', [])}
